@@ -39,7 +39,7 @@ try:
     res["compiles"] = p.returncode == 0
     ok = False
     for attempt in range(2):  # the suite has timing-sensitive tests; one retry
-        p = subprocess.run(["/tmp/wt/tools/run_baseline.py", wt], capture_output=True, text=True, timeout=1800)
+        p = subprocess.run(["/verif/tools/run_baseline.py", wt], capture_output=True, text=True, timeout=1800)
         res[f"baseline_{attempt}"] = p.stdout[-400:]
         if p.returncode == 0:
             ok = True
